@@ -488,10 +488,17 @@ def maybe_expand_binary_axis0(
     lhs0_int = _static_dim_as_int(lhs0)
     rhs0_int = _static_dim_as_int(rhs0)
 
+    out_rank = len(out_shape) if out_shape else None
+
+    def _axis0_aligned(rank: int) -> bool:
+        # NumPy-style broadcasting aligns trailing axes: axis 0 of a lower-rank
+        # operand is not axis 0 of the result and must not take its extent.
+        return out_rank is None or rank == out_rank
+
     def _needs_expand(dim_int: int | None, rank: int) -> bool:
         if override is None or override <= 1:
             return False
-        if rank == 0:
+        if rank == 0 or not _axis0_aligned(rank):
             return False
         if dim_int is None:
             return True
@@ -536,8 +543,16 @@ def maybe_expand_binary_axis0(
     if lhs_override == override or rhs_override == override:
         return lhs, rhs, override
 
-    fallback_lhs = ensure_axis0_extent(ctx, lhs, override, reference=out_val)
-    fallback_rhs = ensure_axis0_extent(ctx, rhs, override, reference=out_val)
+    fallback_lhs = (
+        ensure_axis0_extent(ctx, lhs, override, reference=out_val)
+        if _axis0_aligned(len(lhs_shape0))
+        else lhs
+    )
+    fallback_rhs = (
+        ensure_axis0_extent(ctx, rhs, override, reference=out_val)
+        if _axis0_aligned(len(rhs_shape0))
+        else rhs
+    )
     lhs2_override = get_axis0_override(fallback_lhs)
     rhs2_override = get_axis0_override(fallback_rhs)
     if lhs2_override == override or rhs2_override == override:
@@ -550,8 +565,16 @@ def maybe_expand_binary_axis0(
     if out_var is not None:
         if out_shape:
             fake_ref = SimpleNamespace(shape=SimpleNamespace(dims=out_shape))
-            lhs_alt = ensure_axis0_extent(ctx, lhs, override, reference=fake_ref)
-            rhs_alt = ensure_axis0_extent(ctx, rhs, override, reference=fake_ref)
+            lhs_alt = (
+                ensure_axis0_extent(ctx, lhs, override, reference=fake_ref)
+                if _axis0_aligned(len(lhs_shape0))
+                else lhs
+            )
+            rhs_alt = (
+                ensure_axis0_extent(ctx, rhs, override, reference=fake_ref)
+                if _axis0_aligned(len(rhs_shape0))
+                else rhs
+            )
             lhs3_override = get_axis0_override(lhs_alt)
             rhs3_override = get_axis0_override(rhs_alt)
             if lhs3_override == override or rhs3_override == override:
